@@ -302,6 +302,28 @@ CLAIMED["C14"] = {
     "design_ref": "DESIGN.md §3 C14",
 }
 
+CLAIMED["C05"] = {
+    "text": "Lean theorems over the importer model: what both importers do with one arrival equals a decision table "
+            "written from the property (strategy_table: error aborts with ValueError; warning leaves tables and counters "
+            "untouched and files nothing; replace puts the arrival's row at the key's position; create_unique appends the "
+            "arrival unchanged under <key>_(n+1) or fails with IntegrityError when that id is taken; merge unions the "
+            "attribute values of the arrival and every agreeing candidate without repeats into the last agreeing "
+            "candidate, rewrites the exempt columns to the comma-joined sorted set of values seen, or files the arrival "
+            "under a fresh <key>_n recorded in duplicates), for every database state and configuration; after a step the "
+            "relations are the old ones plus exactly the arrival's Parent (GTF: transcript/gene) links attached to the id "
+            "it was filed under, none for an ignored arrival (nothing_lost_or_invented, both importers); whole-import "
+            "theorems for error, warning (first arrival per key), replace (last arrival at the first position; relations "
+            "accumulate = known finding D12b) and create_unique (j-th later arrival under <key>_j, counters), starting "
+            "from any database (so for create_db and update alike). Partial: the whole-import grouping form of merge is "
+            "stated (merge_exact_seq_full) but only its one-step form is proved; GTF whole-import forms not proved. "
+            "Correspondence end to end with colliding arrivals, all five strategies, force_merge_fields subsets, GFF3 and "
+            "GTF, create_db and update; oracle: grouping reference incl. Parent links.",
+    "note": "Trusted: Lean kernel + standard axioms; sqlite PRIMARY KEY / UPDATE modelled; merged values compared as sets "
+            "(Python's list(set()) order is arbitrary); exempt-column values contain no comma.",
+    "technique": "Lean 4 theorems (decision-table refinement per arrival + fold invariants) + differential correspondence",
+    "design_ref": "DESIGN.md §3 C05",
+}
+
 PENDING_REASON = "check not built yet in this round of work (planned: DESIGN.md §3); nothing is claimed for it"
 
 
